@@ -14,6 +14,8 @@ import TonVerif.Proofs.PruneWF
 import TonVerif.Proofs.OrdCell
 import TonVerif.Proofs.Locate
 import TonVerif.Proofs.LocateBind
+import TonVerif.Proofs.SrcArith2
+import TonVerif.Generated.ProofChecks
 
 namespace TonVerif.Properties.C11
 open TonVerif TonVerif.Model TonVerif.Proofs.CellSpec TonVerif.Proofs.Prune TonVerif.Proofs.Merkle
@@ -790,5 +792,244 @@ example : Shape blkB ∧ (∃ s, specInfo toyH blkB = some s) ∧ OrdUnpruned bl
     simp
   · have key : ∀ x ∈ reprs toyH blkB, ∀ y ∈ reprs toyH blkB, toyH x = toyH y → x = y := by decide +kernel
     exact fun x y hx hy => key x hx y hy
+
+/-! ## Source-regenerated decision lines (`Generated/ProofChecks.lean`: re-translated from proof/check_proof.py and the
+`CellTypes` constants of boc/exotic.py on every run)
+
+Every `if …: raise ProofError(…)` of `check_proof`, `check_block_header_proof`, `check_account_proof` (and the simple ones of
+`check_shard_proof`) is translated as a Boolean function of the values it reads: cell type (an `Int`, ordinary = -1), reference
+and bit counts, `cell.data` / hashes (`Bytes`), the child's level-0 depth.  `x[a:b]` is `Py.slice`, `d.to_bytes(2, 'big')` is
+`Py.toBytes true 2 d` with the side condition `d < 256^2` (Python raises OverflowError beyond). -/
+section Src
+open TonVerif.Proofs.SrcArith2
+set_option linter.unusedSimpArgs false
+
+/-- the two cell-type constants the checks compare with are the model's. -/
+theorem c11_src_cell_types :
+    (Generated.cellTypeMerkleProof : Int) = kMerkleProof ∧ (Generated.cellTypeMerkleUpdate : Int) = kMerkleUpdate := by
+  simp only [Generated.cellTypeMerkleProof, Generated.cellTypeMerkleUpdate, kMerkleProof, kMerkleUpdate] <;> src_prop
+
+/-- the four tests of `check_proof`, for ALL values: wrong cell type; stored hash `data[1:33]` differs; the child's
+level-0 hash differs; and the "malformed" test = not exactly one reference, or not exactly 280 bits, or the data is not
+`03 ++ hash ++ depth(2 bytes, big endian)` (for every depth that has a 2-byte encoding; its side condition holds there). -/
+theorem c11_src_proof_tests (ty : Int) (refs bits d0 : Nat) (data h h0 : Bytes) :
+    Generated.proofWrongType_sideOk ty Generated.cellTypeMerkleProof ∧ Generated.proofWrongStoredHash_sideOk data h ∧
+    Generated.proofWrongChildHash_sideOk h0 h ∧ (d0 < 65536 → Generated.proofMalformed_sideOk refs bits data h d0) ∧
+    Generated.proofWrongType ty Generated.cellTypeMerkleProof = (ty != kMerkleProof) ∧
+    Generated.proofWrongStoredHash data h = (pySlice data 1 33 != h) ∧
+    Generated.proofWrongChildHash h0 h = (h0 != h) ∧
+    Generated.proofMalformed refs bits data h d0 = (refs != 1 || bits != 280 || data != [3] ++ h ++ natToBE 2 d0) := by
+  refine ⟨by simp only [Generated.proofWrongType_sideOk], by simp only [Generated.proofWrongStoredHash_sideOk],
+    by simp only [Generated.proofWrongChildHash_sideOk], ?_, ?_, ?_, ?_, ?_⟩
+  · intro hd; simp only [Generated.proofMalformed_sideOk] <;> src_prop
+  · simp only [Generated.proofWrongType, Generated.cellTypeMerkleProof, kMerkleProof] <;> src_bool
+  · simp only [Generated.proofWrongStoredHash] <;> src_bool
+  · simp only [Generated.proofWrongChildHash] <;> src_bool
+  · simp only [Generated.proofMalformed] <;> src_bool
+
+/-- `check_proof` of the hand model (what `c11_complete`, `c11_sound_shape`, `c11_sound` … are proved about) decides with
+exactly the regenerated source tests, in the order of the code; a child depth without 2-byte encoding is a rejection
+(OverflowError in `to_bytes`, or the earlier ProofError). -/
+theorem c11_src_check_proof (c : PCell) (h : Bytes) :
+    checkProof c h =
+      (if Generated.proofWrongType c.info.kind Generated.cellTypeMerkleProof then false
+       else if Generated.proofWrongStoredHash c.data h then false
+       else match c.refs[0]? with
+         | none => false
+         | some r =>
+           match r.info.getHash 0 with
+           | none => false
+           | some h0 =>
+             if Generated.proofWrongChildHash h0 h then false
+             else match r.info.getDepth 0 with
+               | none => false
+               | some d0 =>
+                 if 65536 ≤ d0 then false
+                 else !Generated.proofMalformed c.refs.length c.info.bits.length c.data h d0) := by
+  have hT := fun ty => (c11_src_proof_tests ty 0 0 0 [] [] []).2.2.2.2.1
+  have hS := fun data h => (c11_src_proof_tests 0 0 0 0 data h []).2.2.2.2.2.1
+  have hC := fun h0 h => (c11_src_proof_tests 0 0 0 0 [] h h0).2.2.2.2.2.2.1
+  have hM := fun refs bits d0 data h => (c11_src_proof_tests 0 refs bits d0 data h []).2.2.2.2.2.2.2
+  simp only [hT, hS, hC, hM, checkProof]
+  split
+  · rfl
+  split
+  · rfl
+  cases c.refs[0]? with
+  | none => rfl
+  | some r =>
+    simp only
+    cases hh : r.info.getHash 0 with
+    | none => simp
+    | some h0 =>
+      by_cases e : h0 = h
+      · subst e
+        cases hd : r.info.getDepth 0 with
+        | none => simp
+        | some d0 =>
+          by_cases hlt : d0 < 65536
+          · have : toBytesBE? 2 d0 = some (natToBE 2 d0) := by simp [toBytesBE?, hlt]
+            simp [this, show ¬ 65536 ≤ d0 by omega, ← decide_ne_eq_bne]
+          · have : toBytesBE? 2 d0 = none := by simp [toBytesBE?, hlt]
+            simp [this, show 65536 ≤ d0 by omega]
+      · simp [e]
+
+/-- the tests of `check_block_header_proof`, for ALL values: root hash differs from the block hash; the state update
+cell is not a Merkle update or its stored new hash `data[33:65]` is not the returned state hash (fix 67bd38d). -/
+theorem c11_src_header_tests (ty : Int) (rh bh data sh : Bytes) :
+    (Generated.hdrWrongHash_sideOk rh bh ∧ Generated.hdrStateUncommitted_sideOk ty Generated.cellTypeMerkleUpdate data sh) ∧
+    Generated.hdrWrongHash rh bh = (rh != bh) ∧
+    Generated.hdrStateUncommitted ty Generated.cellTypeMerkleUpdate data sh =
+      (ty != kMerkleUpdate || pySlice data 33 65 != sh) := by
+  refine ⟨⟨by simp only [Generated.hdrWrongHash_sideOk], by simp only [Generated.hdrStateUncommitted_sideOk]⟩, ?_, ?_⟩
+  · simp only [Generated.hdrWrongHash] <;> src_bool
+  · simp only [Generated.hdrStateUncommitted, Generated.cellTypeMerkleUpdate, kMerkleUpdate] <;> src_bool
+
+/-- `check_block_header_proof` of the hand model decides with exactly the regenerated tests. -/
+theorem c11_src_header (root : PCell) (blockHash : Bytes) :
+    checkBlockHeaderProof root blockHash =
+      (match root.info.getHash 0 with
+       | none => false
+       | some rh => !Generated.hdrWrongHash rh blockHash) ∧
+    checkBlockHeaderProofState root blockHash =
+      (if checkBlockHeaderProof root blockHash then do
+         let su ← root.refs[2]?
+         let r21 ← su.refs[1]?
+         let sh ← r21.info.getHash 0
+         if Generated.hdrStateUncommitted su.info.kind Generated.cellTypeMerkleUpdate su.data sh then none else some sh
+       else none) := by
+  have hW := fun rh bh => (c11_src_header_tests 0 rh bh [] []).2.1
+  have hU := fun ty data sh => (c11_src_header_tests ty [] [] data sh).2.2
+  constructor
+  · simp only [hW, checkBlockHeaderProof]
+    cases root.info.getHash 0 with
+    | none => simp
+    | some rh => by_cases e : rh = blockHash <;> simp [e, bne]
+  · simp only [hU, checkBlockHeaderProofState]
+
+/-- the tests of `check_account_proof` (root count, state hash, account hash — fix 56bdc07 compares with the supplied
+state's own `.hash`) and of `check_shard_proof` (same block, masterchain, root count, state hash), for ALL values. -/
+theorem c11_src_account_tests (n : Nat) (wc : Int) (same : Bool) (h0 sh ah : Bytes) :
+    (Generated.acctWrongRootCount_sideOk n ∧ Generated.acctStateMismatch_sideOk h0 sh ∧ Generated.acctWrongAccount_sideOk h0 ah ∧
+     Generated.shardSame_sideOk same ∧ Generated.shardNotMasterchain_sideOk wc ∧ Generated.shardWrongRootCount_sideOk n ∧
+     Generated.shardStateMismatch_sideOk h0 sh) ∧
+    Generated.acctWrongRootCount n = (n != 2) ∧ Generated.acctStateMismatch h0 sh = (h0 != sh) ∧
+    Generated.acctWrongAccount h0 ah = (h0 != ah) ∧
+    Generated.shardSame same = same ∧ Generated.shardNotMasterchain wc = (wc != -1) ∧
+    Generated.shardWrongRootCount n = (n != 2) ∧ Generated.shardStateMismatch h0 sh = (h0 != sh) := by
+  refine ⟨⟨by simp only [Generated.acctWrongRootCount_sideOk], by simp only [Generated.acctStateMismatch_sideOk],
+    by simp only [Generated.acctWrongAccount_sideOk], by simp only [Generated.shardSame_sideOk],
+    by simp only [Generated.shardNotMasterchain_sideOk], by simp only [Generated.shardWrongRootCount_sideOk],
+    by simp only [Generated.shardStateMismatch_sideOk]⟩, ?_, ?_, ?_, ?_, ?_, ?_, ?_⟩
+  · simp only [Generated.acctWrongRootCount] <;> src_bool
+  · simp only [Generated.acctStateMismatch] <;> src_bool
+  · simp only [Generated.acctWrongAccount] <;> src_bool
+  · simp only [Generated.shardSame] <;> src_bool
+  · simp only [Generated.shardNotMasterchain] <;> src_bool
+  · simp only [Generated.shardWrongRootCount] <;> src_bool
+  · simp only [Generated.shardStateMismatch] <;> src_bool
+
+/-- `check_account_proof` of the hand model (what `c11_account_sound`, `c11_account_complete` … are proved about) decides
+with exactly the regenerated tests, in the order of the code. -/
+theorem c11_src_account (O : Opaque) (roots : List PCell) (blkRootHash addr : Bytes)
+    (state : PCell) :
+    checkAccountProof O roots blkRootHash addr state =
+      (if Generated.acctWrongRootCount roots.length then false else
+       match roots with
+       | [p0, p1] =>
+         if !checkProof p0 blkRootHash then false else
+         match p0.refs[0]? with
+         | none => false
+         | some hdr =>
+         match checkBlockHeaderProofState hdr blkRootHash with
+         | none => false
+         | some stateHash =>
+         match p1.refs[0]? with
+         | none => false
+         | some st =>
+         match st.info.getHash 0 with
+         | none => false
+         | some h0 =>
+         if Generated.acctStateMismatch h0 stateHash then false else
+         if !checkProof p1 stateHash then false else
+         match locateAccount O st addr with
+         | none => false
+         | some acc =>
+           match acc.info.getHash 0 with
+           | none => false
+           | some ha => !Generated.acctWrongAccount ha state.info.hash
+       | _ => false) := by
+  have hN := fun n => (c11_src_account_tests n 0 false [] [] []).2.1
+  have hS := fun h0 sh => (c11_src_account_tests 0 0 false h0 sh []).2.2.1
+  have hA := fun h0 ah => (c11_src_account_tests 0 0 false h0 [] ah).2.2.2.1
+  simp only [hN, hS, hA]
+  match roots with
+  | [] => simp [checkAccountProof]
+  | [_] => simp [checkAccountProof]
+  | _ :: _ :: _ :: _ => simp [checkAccountProof]
+  | [p0, p1] =>
+    simp only [checkAccountProof, List.length_cons, List.length_nil]
+    cases hp0 : checkProof p0 blkRootHash
+    · simp
+    cases hr0 : p0.refs[0]? with
+    | none => simp
+    | some hdr =>
+      cases hst : checkBlockHeaderProofState hdr blkRootHash with
+      | none => simp [hst]
+      | some stateHash =>
+        cases hr1 : p1.refs[0]? with
+        | none => simp [hst, hr1]
+        | some st =>
+          cases hh : st.info.getHash 0 with
+          | none => simp [hst, hr1, hh]
+          | some h0 =>
+            by_cases e : h0 = stateHash
+            · subst e
+              cases hp1 : checkProof p1 h0
+              · simp [hst, hr1, hh, hp1]
+              cases hl : locateAccount O st addr with
+              | none => simp [hst, hr1, hh, hp1, hl]
+              | some acc =>
+                cases hha : acc.info.getHash 0 with
+                | none => simp [hst, hr1, hh, hp1, hl, hha]
+                | some ha => by_cases e2 : ha = state.info.hash <;> simp [hst, hr1, hh, hp1, hl, hha, e2, bne]
+            · simp [hst, hr1, hh, e]
+
+/-- the first three decisions of `check_shard_proof` in the hand model are the regenerated tests (`masterchain` is
+`blk.workchain == -1`): equal block ids return at once; otherwise a non-masterchain block and a root count other than 2
+are rejected. -/
+theorem c11_src_shard (blockInfoOk findShard : PCell → Bool) (same : Bool) (wc : Int) (roots : List PCell) (h : Bytes) :
+    (Generated.shardSame same = true → checkShardProof blockInfoOk findShard same (wc == -1) roots h = true) ∧
+    (Generated.shardSame same = false → Generated.shardNotMasterchain wc = true →
+      checkShardProof blockInfoOk findShard same (wc == -1) roots h = false) ∧
+    (Generated.shardSame same = false → Generated.shardWrongRootCount roots.length = true →
+      checkShardProof blockInfoOk findShard same (wc == -1) roots h = false) := by
+  have hS := fun b => (c11_src_account_tests 0 0 b [] [] []).2.2.2.2.1
+  have hM := fun wc => (c11_src_account_tests 0 wc false [] [] []).2.2.2.2.2.1
+  have hN := fun n => (c11_src_account_tests n 0 false [] [] []).2.2.2.2.2.2.1
+  simp only [hS, hM, hN]
+  refine ⟨?_, ?_, ?_⟩
+  · intro e; simp [checkShardProof, e]
+  · intro e1 e2; simp only [bne_iff_ne, ne_eq] at e2; simp [checkShardProof, e1, e2]
+  · intro e1 e2
+    simp only [bne_iff_ne, ne_eq] at e2
+    match roots with
+    | [] => simp [checkShardProof, e1]
+    | [_] => simp [checkShardProof, e1]
+    | [_, _] => simp at e2
+    | _ :: _ :: _ :: _ => simp [checkShardProof, e1]
+
+/-- the regenerated tests on concrete values: a Merkle proof cell of type 3 with data `03 ++ h ++ 0005`, one reference and 280
+bits passes all four tests of `check_proof` for child depth 5; the same data read for depth 1280 (= 0x0500), a 277-bit cell,
+a second reference, an ordinary cell (type -1) or a 31-byte hash do not. -/
+example : let h : Bytes := List.replicate 32 7
+    Generated.proofWrongType 3 Generated.cellTypeMerkleProof = false ∧ Generated.proofWrongType (-1) Generated.cellTypeMerkleProof = true ∧
+    Generated.proofWrongStoredHash ([3] ++ h ++ [0, 5]) h = false ∧ Generated.proofWrongStoredHash ([3] ++ h ++ [0, 5]) (h.take 31) = true ∧
+    Generated.proofMalformed 1 280 ([3] ++ h ++ [0, 5]) h 5 = false ∧ Generated.proofMalformed 1 280 ([3] ++ h ++ [0, 5]) h 1280 = true ∧
+    Generated.proofMalformed 1 277 ([3] ++ h ++ [0, 5]) h 5 = true ∧ Generated.proofMalformed 2 280 ([3] ++ h ++ [0, 5]) h 5 = true ∧
+    Generated.acctWrongRootCount 2 = false ∧ Generated.acctWrongRootCount 3 = true ∧ Generated.shardNotMasterchain (-1) = false := by
+  decide
+
+end Src
 
 end TonVerif.Properties.C11
